@@ -11,6 +11,7 @@ import Protobom.Model.Sniff
 import Protobom.Model.Parse
 import Protobom.Model.Ident
 import Protobom.Model.Opts
+import Protobom.Model.Store
 
 namespace Protobom.Driver
 open Lean Protobom
@@ -550,6 +551,62 @@ def run (j : Json) : R Json := do
               ("cfgs", Json.arr ((st.insts.map (Opts.deref st.store)).map jCfg).toArray)]])
         | s => throw s!"step {s}") (st0, [])
       pure (Json.arr outs.toArray)
+  | "storeHist" => do
+      let steps ← arrOf (← j.getObjVal? "steps")
+      let C := Store.demoCodec
+      let N := Store.demoNaming
+      let natD (x : Json) (k : String) : Nat := match x.getObjVal? k with
+        | .ok v => (v.getNat?.toOption).getD 0 | _ => 0
+      let flag (x : Json) (k : String) : Bool := match x.getObjVal? k with
+        | .ok (Json.bool b) => b | _ => false
+      -- state: directory content, and whether the configured path is a regular file
+      let (_, outs) := steps.toList.foldl (fun (acc : (Store.Files × Bool) × List Json) (x : Json) =>
+        let fs := acc.1.1
+        let blocked := acc.1.2
+        let id := optStr x "id"
+        match optStr x "s" with
+        | "store" =>
+          let d : Store.SDoc := ⟨if flag x "noMeta" then "" else id, [natD x "body"]⟩
+          let nc := flag x "nc" && !flag x "nilOpts"
+          if blocked then (acc.1, acc.2 ++ [Json.str "err"]) else
+          let r := Store.store C N fs d nc "tmp"
+          ((r.2, false), acc.2 ++ [match r.1 with | .ok _ => Json.str "ok" | _ => Json.str "err"])
+        | "retrieve" =>
+          if blocked then (acc.1, acc.2 ++ [Json.str "err"]) else
+          (acc.1, acc.2 ++ [match Store.retrieve C N fs id with
+            | .ok d => Json.mkObj [("id", Json.str d.id), ("name", Json.str ("body-" ++ toString (d.body.headD 0)))]
+            | _ => Json.str "err"])
+        | "corrupt" =>
+          let e := N.entry id
+          let fs' : Store.Files := match optStr x "how" with
+            | "truncate0" => if (fs e).isSome then Store.fput fs e [] else fs
+            | "garbage" => if (fs e).isSome then Store.fput fs e [0] else fs
+            | "foreign" => if (fs e).isSome then Store.fput fs e (C.enc ⟨"some other identifier", [3]⟩) else fs
+            | _ => Store.fdel fs e
+          ((fs', blocked), acc.2 ++ [Json.str "done"])
+        | "rmdir" => (((fun _ => none), false), acc.2 ++ [Json.str "done"])
+        | "filedir" => (((fun _ => none), true), acc.2 ++ [Json.str "done"])
+        | _ => (acc.1, acc.2 ++ [Json.str "bad-step"])) ((((fun _ => none) : Store.Files), false), [])
+      pure (Json.arr outs.toArray)
+  | "crash" => do
+      let C := Store.demoCodec
+      let N := Store.demoNaming
+      let id := optStr j "id"
+      let natD (k : String) : Option Nat := match j.getObjVal? k with
+        | .ok v => v.getNat?.toOption | _ => none
+      let nc := match j.getObjVal? "nc" with | .ok (Json.bool b) => b | _ => false
+      let newDoc : Store.SDoc := ⟨id, [(natD "bodyNew").getD 0]⟩
+      let oldDoc : Option Store.SDoc := (natD "bodyOld").map (fun b => ⟨id, [b, b]⟩)
+      let fs0 : Store.Files := match oldDoc with
+        | some o => (Store.store C N (fun _ => none) o false "tmp0").2
+        | none => fun _ => none
+      let states : List Store.Files :=
+        if nc && oldDoc.isSome then [fs0] else Store.crashStates fs0 (Store.storeOps C N newDoc "tmp")
+      let kinds := states.map (fun s => match Store.retrieve C N s id with
+        | .ok d => if d = newDoc then "new" else if some d = oldDoc then "old" else "torn"
+        | _ => "err")
+      let dedup := kinds.foldl (fun (acc : List String) k => if acc.getLast? = some k then acc else acc ++ [k]) []
+      pure (jStrs dedup)
   | "newId" => do
       let seeds ← (← arrOf (← j.getObjVal? "seeds")).toList.mapM (fun (sd : Json) => do
         let bs ← arrOf sd
